@@ -59,6 +59,14 @@ def check(ctx):
         if not (rots[0] == np.eye(3, dtype=int)).all() or np.abs(trans[0]).max() > 1e-9:
             order_ = list(range(nops))
         variants.append(("explicit-shuffled", {"rotations": rots[order_], "translations": trans[order_]}))
+        # rotation-major listing: all operations sharing a rotation are adjacent (identity rotation first)
+        keys = [tuple(r.ravel()) for r in rots]
+        first = {}
+        for i_, k_ in enumerate(keys):
+            first.setdefault(k_, i_)
+        rm = sorted(range(nops), key=lambda i_: (first[keys[i_]], i_))
+        if (rots[rm[0]] == np.eye(3, dtype=int)).all() and np.abs(trans[rm[0]]).max() < 1e-9:
+            variants.append(("explicit-rotation-major", {"rotations": rots[rm], "translations": trans[rm]}))
         proper = [i for i in range(nops) if round(np.linalg.det(rots[i])) == 1]
         if 0 < len(proper) < nops:
             variants.append(("proper-subgroup", {"rotations": rots[proper], "translations": trans[proper]}))
@@ -67,13 +75,21 @@ def check(ctx):
                 g_idx = list(range(nops))
             elif vname == "explicit-shuffled":
                 g_idx = order_
+            elif vname == "explicit-rotation-major":
+                g_idx = rm
             else:
                 g_idx = proper
             for order in (2, 3, 4):
                 if N ** order * 3 ** order > 300000:
                     continue
                 obj = Symfc(at, spacegroup_operations=sgops)
-                obj.compute_basis_set(orders=[order])
+                try:
+                    obj.compute_basis_set(orders=[order])
+                except Exception as e:  # noqa: BLE001
+                    ctx.fail("oracle", f"C02/oracle/raised/order{order}", f"{sc['name']} ops={vname} order {order}: computing the basis set raised {type(e).__name__}: {e}",
+                             replay={"cell": sc["name"], "lattice": sc["lattice"].tolist(), "positions": sc["positions"].tolist(), "numbers": [int(x) for x in sc["numbers"]], "ops": vname, "order": order,
+                                     "rotations": None if sgops is None else np.asarray(sgops["rotations"]).tolist(), "translations": None if sgops is None else np.asarray(sgops["translations"]).tolist()}, has_input=True)
+                    continue
                 b = obj.basis_set[order]
                 nb = b.basis_set.shape[1]
                 ctx.case({"cell": sc["name"], "ops": vname, "order": order, "group_order": len(g_idx), "n_basis": int(nb)}, nontrivial=len(g_idx) >= 2 and nb > 0)
@@ -93,7 +109,7 @@ def check(ctx):
                     ctx.fail("oracle", f"C02/oracle/basis/order{order}", f"{sc['name']} ops={vname} order {order}: an expanded basis vector is not invariant under operation {arg} (r={rots[arg].tolist()}, t={trans[arg].round(6).tolist()}): relative change {worst:.2e}",
                              replay={"cell": sc["name"], "lattice": sc["lattice"].tolist(), "positions": sc["positions"].tolist(), "numbers": [int(x) for x in sc["numbers"]], "ops": vname, "order": order, "operation": int(arg)}, has_input=True)
                 # the span of a subgroup's basis must contain the full group's basis (and equal it for the full group given in another order)
-                if vname == "explicit-shuffled":
+                if vname in ("explicit-shuffled", "explicit-rotation-major"):
                     o2 = Symfc(at)
                     o2.compute_basis_set(orders=[order])
                     F1 = np.asarray(b.compression_matrix @ b.basis_set)
@@ -106,7 +122,10 @@ def check(ctx):
             if N <= 4 and vname != "proper-subgroup":
                 for orders in ([2], [2, 3], [2, 3, 4]):
                     d, f = random_dataset(rng, 8, N)
-                    o = Symfc(at, displacements=d, forces=f, spacegroup_operations=sgops).compute_basis_set(orders=orders)
+                    try:
+                        o = Symfc(at, displacements=d, forces=f, spacegroup_operations=sgops).compute_basis_set(orders=orders)
+                    except Exception:  # noqa: BLE001
+                        continue  # reported above
                     if any(bb.basis_set.shape[1] == 0 for bb in o.basis_set.values()):
                         continue
                     try:
